@@ -44,13 +44,13 @@ func c15Post(rc *RunCtx) {
 		return
 	}
 	floors := map[string]int64{
-		"msgformat.accepted_roundtrips":  2000,
-		"dns.accepted_roundtrips":        2000,
+		"msgformat.accepted_roundtrips":   2000,
+		"dns.accepted_roundtrips":         2000,
 		"obfuscators.accepted_roundtrips": 1000,
-		"anypb.accepted_roundtrips":      300,
-		"encryption.accepted_roundtrips": 300,
-		"requester.accepted_roundtrips":  200,
-		"exchange.accepted_roundtrips":   150,
+		"anypb.accepted_roundtrips":       300,
+		"encryption.accepted_roundtrips":  300,
+		"requester.accepted_roundtrips":   200,
+		"exchange.accepted_roundtrips":    150,
 	}
 	for k, min := range floors {
 		if got := rc.Counts[k]; got < min {
